@@ -15,12 +15,12 @@ variable {n m : Nat} {nb : Nbrs} {rf : Nat} {r : IR.St}
 
 set_option linter.unusedVariables false in
 include hnb in
-theorem dfs_pop (st sz : Nat) (ls : List (Nat × Nat)) (s : LS) (hc : Core n s)
+theorem dfs_pop_v (st sz : Nat) (ls : List (Nat × Nat)) (s : LS) (hc : Core n s)
     (ht : TopOK s.op 0 s.path s.choices ((st, sz) :: ls)) (hsk : s.skipDeage = false)
     (hage : s.op.age + 1 = s.path.length)
-    (hJ : CertN n m nb ((st, sz) :: ls) s) (h : DN n nb rf r ((st, sz) :: ls) s) :
-    DA n nb rf r ls { s with path := s.path.drop 1, choices := s.choices.drop 1 } := by
-  obtain ⟨gh, hw, hG, hcov, haux⟩ := h
+    (hJ : CertN n m nb ((st, sz) :: ls) s) (gh : Gh) (h : DNv n nb rf r gh ((st, sz) :: ls) s) :
+    DAv n nb rf r { gh with vs := gh.vs.dropLast } ls { s with path := s.path.drop 1, choices := s.choices.drop 1 } := by
+  obtain ⟨hw, hG, hcov, haux⟩ := h
   obtain ⟨p, ps, c, cs, st', sz', ls', e1, e2, e3⟩ := topOK_path_ne ht
   cases e3
   have ht' := ht
@@ -79,7 +79,7 @@ theorem dfs_pop (st sz : Nat) (ls : List (Nat × Nat)) (s : LS) (hc : Core n s)
           exact hcomp
   have hlen : ∀ L, L < ps.length → gh.vs.dropLast.take L = gh.vs.take L :=
     fun L hL => take_dropLast gh.vs (by omega)
-  refine ⟨{ gh with vs := gh.vs.dropLast }, walk_pop st sz ls s ht hw, ⟨hG.first, hG.best, hG.bgsAut, hG.ngens0, hG.bestOrb, hG.bpLen, hG.fpLen⟩,
+  refine ⟨walk_pop st sz ls s ht hw, ⟨hG.first, hG.best, hG.bgsAut, hG.ngens0, hG.bestOrb, hG.bpLen, hG.fpLen⟩,
     hcov', ?_, ?_⟩
   · show FrameAux n nb rf r { gh with vs := gh.vs.dropLast }
       { s with path := s.path.drop 1, choices := s.choices.drop 1 } gh.vs.dropLast true (s.path.drop 1)
@@ -96,6 +96,16 @@ theorem dfs_pop (st sz : Nat) (ls : List (Nat × Nat)) (s : LS) (hc : Core n s)
     have : nodeL n nb rf r gh.vs 0 = r := by simp [nodeL, IR.nodeAt]
     rw [← this]
     exact hcomp
+
+set_option linter.unusedVariables false in
+include hnb in
+theorem dfs_pop (st sz : Nat) (ls : List (Nat × Nat)) (s : LS) (hc : Core n s)
+    (ht : TopOK s.op 0 s.path s.choices ((st, sz) :: ls)) (hsk : s.skipDeage = false)
+    (hage : s.op.age + 1 = s.path.length)
+    (hJ : CertN n m nb ((st, sz) :: ls) s) (h : DN n nb rf r ((st, sz) :: ls) s) :
+    DA n nb rf r ls { s with path := s.path.drop 1, choices := s.choices.drop 1 } := by
+  obtain ⟨gh, h⟩ := h
+  exact ⟨_, dfs_pop_v hnb st sz ls s hc ht hsk hage hJ gh h⟩
 
 end
 end CanonF
